@@ -119,7 +119,7 @@ def idct (coef q : Array Int) : Option (Array Int) := do
 
 /-- quantizeBlock's quantiser loop over the generated body -/
 def quantise (coef q : Array Int) : Array Int :=
-  coef.zipWith (fun c qi => Gen.JpegBaseline.quantizeBlock.entry 0 0 0 0 0 qi c) q
+  coef.zipWith (fun c qi => Gen.JpegBaseline.quantizeBlock.entry default 0 0 0 0 0 qi c) q
 
 /-- one 8×8 block through encoder (DCT, quantiser) and decoder (dequantiser + IDCT) -/
 def blockRoundTrip (blk q : Array Int) : Option (Array Int) := do
